@@ -33,7 +33,7 @@ func c13Num(r *rand.Rand) gen.Num {
 }
 
 func runC13(c *core.Ctx) {
-	c.SetRule("cases: books and logs whose names range over letters of many scripts, digits, blanks, '/', commas, inner double quotes, backslash-dot and other punctuation; quantities negative, tiny, large and on rounding ties of the printed precision; repeated foods within a day; periods. The three exports are read by a strict RFC 4180 reader written for the harness (not encoding/csv). Oracle: row count and order (log: one row per (day, distinct food) in file order; raw book: one per entry in file order; resolved book: per (recipe, element) sorted by recipe then element), names byte-identical, ISO dates, amounts matching ^-?\\d+\\.\\d{3}$ (\\d{2} for the book) within half a unit of the last digit (+1e-9 relative) of the exact value. Non-trivial = export with a name that needs quoting; distinct = hash(file, command).")
+	c.SetRule("cases: books and logs whose names range over letters of many scripts, digits, blanks, '/', commas, inner double quotes, backslash-dot and other punctuation; quantities negative, tiny, large and on rounding ties of the printed precision; repeated foods within a day; periods; logs written in five date layouts (the export stays ISO). The three exports are read by a strict RFC 4180 reader written for the harness (not encoding/csv). Oracle: row count and order (log: one row per (day, distinct food) in file order; raw book: one per entry in file order; resolved book: per (recipe, element) sorted by recipe then element), names byte-identical, ISO dates, amounts matching ^-?\\d+\\.\\d{3}$ (\\d{2} for the book) within half a unit of the last digit (+1e-9 relative) of the exact value. Non-trivial = export with a name that needs quoting; distinct = hash(file, command).")
 	pool := newPool(c, c.Procs)
 	if pool == nil {
 		return
@@ -68,7 +68,8 @@ func runC13(c *core.Ctx) {
 		if i%3 == 0 {
 			st = gen.Hostile(r)
 		}
-		files := map[string]string{"food.yaml": gen.RenderBook(book, st), "log.yaml": gen.RenderLog(log, "2006/01/02", st)}
+		layout := []string{"2006/01/02", "2006/01/02", "02.01.2006", "Jan 2 2006", "2006-01-02"}[r.Intn(5)]
+		files := map[string]string{"food.yaml": gen.RenderBook(book, st), "log.yaml": gen.RenderLog(log, layout, st)}
 		srv.Write(files)
 		quoted := needsQuote.MatchString(files["food.yaml"]) || needsQuote.MatchString(files["log.yaml"])
 
@@ -134,10 +135,13 @@ func runC13(c *core.Ctx) {
 		// csv log (optionally with a period)
 		var b, e *gen.Date
 		args := []string{"-d", "food.yaml", "-l", "log.yaml"}
+		if layout != "2006/01/02" {
+			args = append(args, "--date-format", layout)
+		}
 		if r.Intn(3) == 0 && len(log) > 0 {
 			d := log[r.Intn(len(log))].Date
 			b = &d
-			args = append(args, "-b", d.Format("2006/01/02"))
+			args = append(args, "-b", d.Format(layout))
 		}
 		var wl []want
 		for _, d := range restrict(log, b, e) {
